@@ -158,7 +158,8 @@ where
                     // server keep-alive
                     let keep_alive = pkt.server_keepalive_sec.unwrap_or(keep_alive);
 
-                    shared.set_cap(pkt.receive_max.get() as usize);
+                    // send window: configured maximum, capped by the server's Receive Maximum
+                    shared.set_cap(self.cfg.max_send.min(pkt.receive_max.get()) as usize);
 
                     Ok(Client::new(
                         io,
